@@ -987,6 +987,12 @@ func (ex *Exec) valEq(st *State, x, y Value) *Term {
 		if !ok {
 			break
 		}
+		if a.SymNil != nil && b.T == nil && b.SymNil == nil {
+			return a.SymNil
+		}
+		if b.SymNil != nil && a.T == nil && a.SymNil == nil {
+			return b.SymNil
+		}
 		if a.T == nil || b.T == nil {
 			return tb.Bool(a.T == nil && b.T == nil)
 		}
